@@ -100,6 +100,11 @@ def run_styles(ctx, nprog, ncombo):
                          ('eof_same_line_comment_no_newline', core + ' # the end'), ('eof_blank_lines', core + '\n\n\n'), ('eof_spaces', core + '\n   '),
                          ('bof_comment', '# header\n\n' + b0), ('bof_blank', '\n\n  \n' + b0), ('eof_hash_only', core + '\n#')):
             ops.append({'op': 'ast', 'rules': t2}); meta.append((k, json.dumps({lab2: True}), t2))
+        # a filter whose first clause starts with a QUOTED key, directly after the bracket and after a blank / a line break
+        for lab2, rep in (('filter_quoted_key_tight', r"['\1' "), ('filter_dquoted_key_tight', r'["\1" '), ('filter_quoted_key_spaced', r"[ '\1' "), ('filter_quoted_key_nl', "[\n      '\\1' ")):
+            fq = re.sub(r'\[ (?!(?:keys|KEYS|this|THIS|some|SOME|not|NOT|when|WHEN)\b)([A-Za-z_][A-Za-z0-9_]*) ', rep, b0)
+            if fq != b0:
+                ops.append({'op': 'ast', 'rules': fq}); meta.append((k, json.dumps({lab2: True}), fq))
         if '"' not in re.sub(r'"[^"\[\]\n]*"', '', b0):
             fn = re.sub(r'\[ ', '[\n      ', re.sub(r' \]', '\n    ]', b0))
             if fn != b0:
@@ -171,6 +176,22 @@ def run_semantic(ctx, progs):
         c1 = 'a exists\nb == 1 or\nc == 2\n'
         c2 = 'rule default {\n  a exists\n  b == 1 or\n  c == 2\n}\n'
         tb.append((c1, c2, rng.choice([{"a": 1, "b": 1}, {"a": 1, "c": 3}, {"b": 1}, {}])))
+    # everything a rule body accepts, written outside any rule, against the same text as the body of `rule default`
+    file_level = ['when b exists {\n  other\n  c == 2 or other\n}\n', 'when other {\n  a exists\n}\n',
+                  "AWS::S3::Bucket {\n  Properties exists\n}\n", "AWS::S3::Bucket when a exists {\n  Properties exists\n}\na exists\n",
+                  'Resources.* {\n  Type exists\n}\nsome Resources.*.Type == "AWS::S3::Bucket"\n', 'let v = a\n%v exists\nwhen %v == 1 {\n  other\n}\n',
+                  'when a exists {\n  chk(a)\n  chk(b) or other\n}\n']
+    # (a bare rule reference or a parameterised call as a LINE of the file is not in the grammar: a file-level line is an access
+    # clause, a when block or a type block)
+    fl_docs = [{'a': 1, 'b': 1, 'c': 2, 'Resources': {'x': {'Type': 'AWS::S3::Bucket', 'Properties': {}}}}, {'b': 2, 'Resources': {'x': {'Type': 'T'}}}, {'a': 1, 'Resources': {'x': {'Type': 'AWS::S3::Bucket'}}}]
+    pre = 'rule other {\n  a exists\n}\nrule chk(p) {\n  %p exists\n}\n'
+    for body in file_level:
+        indented = ''.join('  ' + l + '\n' for l in body.rstrip('\n').split('\n'))
+        if body.startswith('let '):
+            first, restb = body.split('\n', 1)
+            indented = '  ' + first + '\n' + ''.join('  ' + l + '\n' for l in restb.rstrip('\n').split('\n'))
+        for d in fl_docs:
+            tb.append((pre + body, pre + 'rule default {\n' + indented + '}\n', d))
     # documents in which the selection of the type block is unresolved: no `Resources`, an empty one, one that is not a struct
     # (recorded finding: the type block raises an evaluation error where the equivalent filter block FAILs)
     for d in ({}, {'Resources': {}}, {'Other': 1}, {'Resources': []}):
